@@ -147,6 +147,17 @@ def starts_per_iteration(audit: list[dict]) -> dict[str, list[int]]:
     return out
 
 
+def counts_for(spec: dict, c: Counter) -> Counter:
+    """Execution counts as the spec allows them to be compared: where per-stage iteration labels legitimately depend on
+    the schedule (spec['loose_iter_labels'], see specs.or_split_in_loop), per (stage, task) over all iterations."""
+    if not (spec or {}).get("loose_iter_labels"):
+        return c
+    out: Counter = Counter()
+    for (r, t, _i), n in c.items():
+        out[(r, t, "*")] += n
+    return out
+
+
 def exec_counts(ledger: list[dict]) -> Counter:
     c: Counter = Counter()
     for r in ledger:
